@@ -34,8 +34,50 @@ routines need one tensor per site.  An exception where no rejection was
 predicted is a violation (check='crash'); a predicted rejection that instead
 returns a result is checked like any other result.
 
+Tables (one ``table.run`` each, own counters in the evidence):
+
+  modes     vector targets x every ordered where (size 1..3) x every contract
+            mode of the geometry (generic 7 + swap+split / nonlocal / auto-mps
+            in 1D) x {plain, transpose, dagger[, both]}
+  ops       x operator kind (generic complex / real, identity, diagonal,
+            product, swap-like) x matrix / 2k-tensor form, in-place spelling,
+            where as list / 1-tuple
+  tags      modes x propagate_tags in {sites, register, False, True} x tags
+  chain     gate_split, gate_with_auto_swap(swap_back), swap_sites_with_compress,
+            swap_site_to, gate_nonlocal(method, transpose, dims),
+            gate_with_submpo (hand-built exact sub-MPO), gate_with_mpo
+  lazyop    gate_with_op_lazy, gate_{upper,lower,sandwich}_with_op_lazy with full
+            and sub-operators
+  operator  MPO / graph operator / PEPO: gate(which=...) and the gate_upper /
+            gate_lower / gate_sandwich spellings, gate_sandwich_inds,
+            MPO.gate_sandwich_with_auto_swap(dagger, swap_back, contract,
+            strip_exponent), MPO swaps
+  simple    gate_simple(_): one site, bonded pair, long range fallback with its
+            path options, gauges on all / every second bond, renorm
+  raw       TensorNetwork.gate_inds on plain networks with user labels (incl.
+            labels 'b', 'l0', 'r1', ..., a label given as bare str,
+            parametrised gates), gate_inds_with_tn (tensor / network / split
+            gate, absent labels), Tensor.gate
+  hist      depth-2 histories: every (accepted first step, second step) pair of
+            the single-step menu of a target
+  hist3     (thorough) depth-3 histories on the 3-site open MPS
+
+Targets, see ``_targets``: open MPS L=3..5 (uniform and site dependent physical
+dims, real and complex), cyclic MPS, MPO (open, cyclic), PEPS 2x2 / 2x3 / d=3,
+PEPO 2x2, tree / ring / triangle / string-named graph vector and operator
+networks, Dense1D, plain labelled networks, a bare Tensor.
+
 Entry points: see ``ENTRIES``.  Conventions established on the real code (not
-defects) are listed in ``ctx.assumptions``.
+defects) are listed in ``ctx.assumptions``.  Not asserted: gate_fit_local_
+(variational by design), the randomised / variational 1D compression methods
+(C09's table), block-sparse / fermionic backends.
+
+Observations outside the documented domain (not findings): a PArray gate on
+ONE site with contract=True raises ImportError (autoray tensordot on the
+'quimb' backend); mps.gate(contract='nonlocal') on a cyclic MPS returns the
+right state as an open chain whose ``cyclic`` flag still says True (later chain
+routines then fail); gate_simple(contract=...) on a non-bonded pair forwards
+``contract`` into the long range compressor (TypeError).
 """
 
 from __future__ import annotations
@@ -1638,6 +1680,10 @@ def _cells_simple(tier):
                 continue
             sites = _sites_of(t)
             for where in _wheres(t, 3 if tier != "quick" else 2, tier):
+                if len(where) == 3:
+                    # documented NotImplementedError for > 2 sites: one cell per where, not crossed
+                    cells.append({"t": t, "steps": ({"e": "gate_simple", "w": where},)})
+                    continue
                 for f in ("n", "t", "d"):
                     for g in ("all", "half"):
                         for form in ("mat", "ten"):
